@@ -283,8 +283,9 @@ func checkHistory(rt fataler, rec *evid.Rec, h *resgen.History, cnt *c02Counters
 	if nontrivial {
 		rec.Class("nontrivial")
 	}
-	if nontrivial && rec.WantSample("history") {
-		rec.Sample("history", map[string]any{"steps": len(h.Prog.Steps), "features": h.Prog.Features,
+	label := fmt.Sprintf("history-%d-steps", len(h.Prog.Steps))
+	if nontrivial && rec.WantSample(label) {
+		rec.Sample(label, map[string]any{"steps": len(h.Prog.Steps), "features": h.Prog.Features,
 			"last_tx": h.Prog.Steps[len(h.Prog.Steps)-1].Source, "stats": fmt.Sprintf("%+v", h.Stats)})
 	}
 	_ = strings.Join
